@@ -25,7 +25,7 @@ func genPools(repo string) {
 	type pool struct {
 		fn, cond, guard, initBound, clamp string
 		idx, initIdx                      []string
-		incs                              int
+		incs, exits                       int
 	}
 	var pools []pool
 	for _, fd := range p.allFuncs() {
@@ -54,6 +54,16 @@ func genPools(repo string) {
 			seen := map[string]bool{}
 			ast.Inspect(fs.Body, func(m ast.Node) bool {
 				switch x := m.(type) {
+				case *ast.FuncLit:
+					return false
+				case *ast.BranchStmt:
+					// anything that leaves the receive loop before every result has arrived (a plain
+					// `continue` stays in the loop)
+					if x.Tok.String() != "continue" || x.Label != nil {
+						pl.exits++
+					}
+				case *ast.ReturnStmt:
+					pl.exits++
 				case *ast.IncDecStmt:
 					if exprText(x.X) == cnt {
 						pl.incs++
@@ -142,15 +152,15 @@ func genPools(repo string) {
 	}
 	sort.Slice(pools, func(i, j int) bool { return pools[i].fn < pools[j].fn })
 	var b strings.Builder
-	b.WriteString("namespace LuaHelper.Gen\n\nstructure Pool where\n  func : String\n  /-- condition of the receive loop -/\n  loopCond : String\n  /-- how often the received count is incremented in the loop body (error path + normal path) -/\n  incs : Nat\n  /-- guard of the refill branch -/\n  guard : String\n  /-- distinct index expressions mentioning the received count inside the refill branch -/\n  refillIdx : List String\n  /-- bound of the initial dispatch loop and the index of the file it sends -/\n  initBound : String\n  initIdx : List String\n  /-- clamp of the worker count to the number of jobs -/\n  clamp : String\nderiving Repr, DecidableEq\n\n")
+	b.WriteString("namespace LuaHelper.Gen\n\nstructure Pool where\n  func : String\n  /-- condition of the receive loop -/\n  loopCond : String\n  /-- how often the received count is incremented in the loop body (error path + normal path) -/\n  incs : Nat\n  /-- statements that leave the receive loop early (break, return, goto, labelled continue) -/\n  exits : Nat\n  /-- guard of the refill branch -/\n  guard : String\n  /-- distinct index expressions mentioning the received count inside the refill branch -/\n  refillIdx : List String\n  /-- bound of the initial dispatch loop and the index of the file it sends -/\n  initBound : String\n  initIdx : List String\n  /-- clamp of the worker count to the number of jobs -/\n  clamp : String\nderiving Repr, DecidableEq\n\n")
 	b.WriteString("def workerPools : List Pool := [\n")
 	for i, pl := range pools {
 		sep := ","
 		if i == len(pools)-1 {
 			sep = ""
 		}
-		fmt.Fprintf(&b, "  { func := %s, loopCond := %s, incs := %d, guard := %s, refillIdx := %s, initBound := %s, initIdx := %s, clamp := %s }%s\n",
-			leanStr(pl.fn), leanStr(pl.cond), pl.incs, leanStr(pl.guard), leanStrList(pl.idx), leanStr(pl.initBound), leanStrList(pl.initIdx), leanStr(pl.clamp), sep)
+		fmt.Fprintf(&b, "  { func := %s, loopCond := %s, incs := %d, exits := %d, guard := %s, refillIdx := %s, initBound := %s, initIdx := %s, clamp := %s }%s\n",
+			leanStr(pl.fn), leanStr(pl.cond), pl.incs, pl.exits, leanStr(pl.guard), leanStrList(pl.idx), leanStr(pl.initBound), leanStrList(pl.initIdx), leanStr(pl.clamp), sep)
 	}
 	b.WriteString("]\n\nend LuaHelper.Gen\n")
 	write("Pools.lean", b.String())
